@@ -148,6 +148,7 @@ class SchemaGen:
         keys = [k for k, s in sorted(props.items()) if isinstance(s, dict) and not k.startswith("__")]
         r.shuffle(keys)
         used = 0
+        items = []  # each statement (one line, or a whole nested block) is one item, so that the order can be mixed
         for k in keys:
             if used >= 5:
                 break
@@ -161,27 +162,33 @@ class SchemaGen:
             line = f"{pad}{indent}{k.upper()} {v}"
             if r.random() < comments:
                 line += f" # c-{typ}-{k}"
-            lines.append(line)
+            items.append([line])
             used += 1
         ex = self.EXTRAS.get(typ, [])
         if ex:
-            seen = {l.split()[0].upper() for l in lines[1:] if l.split()}
-            for e in r.sample(ex, min(len(ex), r.choice([0, 1, 2, 3, 4]))):
+            seen = {it[0].split()[0].upper() for it in items if it[0].split()}
+            for e in r.sample(ex, min(len(ex), r.choice([0, 1, 2, 3, 4, len(ex)]))):
                 kw = e.split()[0]
                 if kw in seen and kw not in ("PROCESSING", "CONFIG", "OUTPUTFORMAT", "SYMBOL", "FEATURE", "COMPOSITE"):
                     continue
                 seen.add(kw)
-                for part in e.split("\n"):
-                    lines.append(f"{pad}{indent}{part.strip()}")
-        if typ == "layer" and not any(l.strip().upper().startswith("TYPE ") for l in lines):
-            lines.append(f"{pad}{indent}TYPE {r.choice(['POINT', 'LINE', 'POLYGON'])}")
+                items.append([f"{pad}{indent}{part.strip()}" for part in e.split("\n")])
+        if typ == "layer" and not any(it[0].strip().upper().startswith("TYPE ") for it in items):
+            items.append([f"{pad}{indent}TYPE {r.choice(['POINT', 'LINE', 'POLYGON'])}"])
         if depth < 3:
             for c in self.CHILDREN.get(typ, []):
                 reps = r.choice([0, 0, 1, 2]) if c in ("layer", "class", "style", "label") else r.choice([0, 0, 1])
                 for _ in range(reps):
+                    it = []
                     if r.random() < comments:
-                        lines.append(f"{pad}{indent}# about {c}")
-                    lines += self.block(r, c, depth + 1, comments, indent)
+                        it.append(f"{pad}{indent}# about {c}")
+                    it += self.block(r, c, depth + 1, comments, indent)
+                    items.append(it)
+        if r.random() < 0.2:
+            # a hand-written file keeps no canonical order: blocks before scalars, CONFIG after PROJECTION, ...
+            r.shuffle(items)
+        for it in items:
+            lines += it
         lines.append(pad + "END")
         return lines
 
